@@ -53,6 +53,10 @@ def quant_alphabet(kind):
         # few observed rows, on which the column separates the target perfectly: strong R, weak Kruskal H
         "strongnan": [(v * 10.0 if i in (0, 3, 5, 6, 8, 11) else nan) for i, v in enumerate(y)],
         "strongnan2": [(v * 7.0 + 1 if i in (1, 2, 6, 7, 10, 11) else nan) for i, v in enumerate(y)],
+        # q1 = 1, q3 = 3: the largest value sits exactly on the upper Tukey fence q3 + 1.5 * iqr = 6 (and -6 on the lower
+        # fence once the column is negated)
+        "fence": [1.0, 1.0, 1.0, 2.0, 1.0, 2.0, 2.0, 3.0, 3.0, 3.0, 3.0, 6.0],
+        "fence2": [3.0, 3.0, 2.0, 3.0, 3.0, 2.0, 2.0, 1.0, 1.0, 1.0, 1.0, -2.0],
     }
 
 
